@@ -25,6 +25,7 @@ RULE = ("literal spellings generated from the OData ABNF per kind (11 kinds; bou
         "11 expression contexts; the value is computed by the generator. distinct = distinct "
         "(spelling, context); non-trivial = every case (spelling has a kind-specific value)")
 RULE += (" " + 'Also: every built-in function name in 6 letter cases as an identifier; strings whose content spells another literal kind / keyword / operator.')
+RULE += (" " + 'Reserved-first-segment lane: 13 reserved words x 5 letter cases as first / later namespace part and (any, all) as plain names, every context.')
 ASSUMPTIONS = ["durations: 365.25-day years, 30.44-day months (documented), compared with "
                "1 us + 1e-15 relative tolerance because the library goes through float",
                "fractions of a second beyond microseconds are truncated (Python datetime)",
